@@ -7,65 +7,24 @@ import TarsModel.Proofs.TotalDec
 namespace Tars
 open Consts
 
-/-! ### panic triggers -/
+/-! ### outcome classification -/
 
-/-- a length prefix that decodes to a negative number ends exactly at `r'` -/
-def NegLenAt (r r' : Reader) : Prop :=
-  ∃ r1 len, r.Le r1 ∧ readLen r1 = (.ok len, r') ∧ len < 0
+/-- outcome classification: a value, a plain Go error, or the model's ill-typed-target marker —
+    in particular neither the artefact `.fuel` nor a Go run-time panic -/
+def Cls {α : Type} (x : Res α) : Prop :=
+  ∀ e, x.1 = .error e → e.isPlain = true ∨ e = illTyped
 
-/-- the schema type `ty` contains (through vectors, arrays, maps and nested structs of `env`) a
-    fixed-size array of `n` elements -/
-inductive HasArr (env : Env) : Ty → Nat → Prop
-  | here (n : Nat) (e : Ty) : HasArr env (.arr n e) n
-  | vec {e : Ty} {n : Nat} : HasArr env e n → HasArr env (.vec e) n
-  | arr {e : Ty} {m n : Nat} : HasArr env e n → HasArr env (.arr m e) n
-  | mapK {k v : Ty} {n : Nat} : HasArr env k n → HasArr env (.map k v) n
-  | mapV {k v : Ty} {n : Nat} : HasArr env v n → HasArr env (.map k v) n
-  | struct {name : String} {fs : List Field} {f : Field} {n : Nat} :
-      env.find name = some fs → f ∈ fs → HasArr env f.ty n → HasArr env (.struct name) n
+theorem Cls.of_plain {α : Type} {x : Res α} (h : PlainRes x.1) : Cls x := fun e he => .inl (h e he)
 
-/-- between `r` and `r'` a length prefix was read that exceeds the size `n` of a fixed array
-    allowed by `A` -/
-def Overlong (A : Nat → Prop) (r r' : Reader) : Prop :=
-  ∃ n, A n ∧ ∃ r1 r2 len, r.Le r1 ∧ readLen r1 = (.ok len, r2) ∧ r2.Le r' ∧ (n : Int) < len
+theorem Cls.of_ok {α : Type} {r' : Reader} {a : α} : Cls ((.ok a, r') : Res α) :=
+  fun e he => by simp at he
 
-/-- outcome classification: a value, a plain Go error, one of the two Go panics together with its
-    trigger, or the model's ill-typed-target marker -/
-def Cls {α : Type} (A : Nat → Prop) (r : Reader) (x : Res α) : Prop :=
-  ∀ e, x.1 = .error e →
-    e.isPlain = true ∨ (e = .panic "makeslice" ∧ NegLenAt r x.2) ∨
-    (e = .panic "index" ∧ Overlong A r x.2) ∨ e = illTyped
-
-theorem NegLenAt.mono {r0 r r' : Reader} (h : r0.Le r) (hn : NegLenAt r r') : NegLenAt r0 r' := by
-  obtain ⟨r1, len, h1, h2, h3⟩ := hn
-  exact ⟨r1, len, h.trans h1, h2, h3⟩
-
-theorem Overlong.mono {A B : Nat → Prop} {r0 r r' r'' : Reader} (hAB : ∀ n, A n → B n)
-    (h : r0.Le r) (h' : r'.Le r'') (ho : Overlong A r r') : Overlong B r0 r'' := by
-  obtain ⟨n, hA, r1, r2, len, h1, h2, h3, h4⟩ := ho
-  exact ⟨n, hAB n hA, r1, r2, len, h.trans h1, h2, h3.trans h', h4⟩
-
-theorem Cls.of_plain {α : Type} {A : Nat → Prop} {r : Reader} {x : Res α} (h : PlainRes x.1) :
-    Cls A r x := fun e he => .inl (h e he)
-
-theorem Cls.of_ok {α : Type} {A : Nat → Prop} {r r' : Reader} {a : α} :
-    Cls A r ((.ok a, r') : Res α) := fun e he => by simp at he
-
-theorem Cls.of_plainErr {α : Type} {A : Nat → Prop} {r r' : Reader} {e : Err} (h : e.isPlain = true) :
-    Cls A r ((.error e, r') : Res α) := fun e' he => by
+theorem Cls.of_plainErr {α : Type} {r' : Reader} {e : Err} (h : e.isPlain = true) :
+    Cls ((.error e, r') : Res α) := fun e' he => by
   simp only [Except.error.injEq] at he; subst he; exact .inl h
 
-theorem Cls.mono {α : Type} {A B : Nat → Prop} {r0 r : Reader} {x : Res α} (hAB : ∀ n, A n → B n)
-    (h : r0.Le r) (hc : Cls A r x) : Cls B r0 x := by
-  intro e he
-  rcases hc e he with h1 | ⟨h1, h2⟩ | ⟨h1, h2⟩ | h1
-  · exact .inl h1
-  · exact .inr (.inl ⟨h1, h2.mono h⟩)
-  · exact .inr (.inr (.inl ⟨h1, h2.mono hAB h (Reader.Le.refl _)⟩))
-  · exact .inr (.inr (.inr h1))
-
-theorem Cls.err_cast {α β : Type} {A : Nat → Prop} {r r1 : Reader} {e : Err}
-    (h : Cls A r ((.error e, r1) : Res α)) : Cls A r ((.error e, r1) : Res β) := by
+theorem Cls.err_cast {α β : Type} {r1 : Reader} {e : Err}
+    (h : Cls ((.error e, r1) : Res α)) : Cls ((.error e, r1) : Res β) := by
   intro e' he
   simp only [Except.error.injEq] at he
   subst he
@@ -81,21 +40,33 @@ theorem readLen_plain (r : Reader) : PlainRes (readLen r).1 := by
 theorem readSlice8_plain (old : Bytes) (len : Int) (r : Reader) : PlainRes (readSlice8 old len r).1 := by
   unfold readSlice8; split
   · simp
-  · cases h : readFull len.toNat r with
-    | mk res r' =>
-      cases res with
-      | error e => rw [(readFull_err h).1]; simp
-      | ok v => simp
+  · cases hc : checkLength len r with
+    | mk res0 r0 =>
+      cases res0 with
+      | error e => rw [(checkLength_err hc).2.1]; simp
+      | ok u =>
+        simp only
+        cases h : readFull len.toNat r0 with
+        | mk res r' =>
+          cases res with
+          | error e => rw [(readFull_err h).1]; simp
+          | ok v => simp
+
+theorem checkLength_plain (len : Int) (r : Reader) : PlainRes (checkLength len r).1 := by
+  cases hc : checkLength len r with
+  | mk res0 r0 =>
+    cases res0 with
+    | error e => rw [(checkLength_err hc).2.1]; simp
+    | ok u => simp
 
 theorem skipTo_plain (ty tag : Nat) (req : Bool) (r : Reader) : PlainRes (skipTo ty tag req r).1 := by
   cases h : skipTo ty tag req r with
   | mk res r' => exact (skipTo_pos h).2.2.2
 
-/-- `arrOverflow`: a plain read error, "makeslice" directly after a negative length, or "index" -/
+/-- `arrOverflow` (unreachable from `decVar` since the length guard): plain error, "makeslice" or "index" -/
 theorem arrOverflow_cls (e : Ty) (r : Reader) :
     ∀ e', (arrOverflow e r).1 = .error e' →
-      e'.isPlain = true ∨ (e' = .panic "makeslice" ∧ NegLenAt r (arrOverflow e r).2) ∨
-      e' = .panic "index" := by
+      e'.isPlain = true ∨ e' = .panic "makeslice" ∨ e' = .panic "index" := by
   unfold arrOverflow
   split
   · have hp := skipToNoCheck_nofuel 0 true r
@@ -120,7 +91,7 @@ theorem arrOverflow_cls (e : Ty) (r : Reader) :
               split
               · rename_i hneg
                 intro e' he; simp only [Except.error.injEq] at he; subst he
-                exact .inr (.inl ⟨rfl, r1, len, p1, hc, hneg⟩)
+                exact .inr (.inl rfl)
               · intro e' he; simp only [Except.error.injEq] at he; subst he
                 exact .inr (.inr rfl)
         · split
@@ -192,50 +163,23 @@ theorem mul_step (a ρ1 ρ : Nat) (h : ρ1 + 1 ≤ ρ) : a * ρ1 + a ≤ a * ρ 
   rw [Nat.mul_add, Nat.mul_one] at this
   exact this
 
-/-- classification for the array loop: its own "index" trigger is `n < len` -/
-def ClsArr {α : Type} (A : Nat → Prop) (n : Nat) (len : Int) (r : Reader) (x : Res α) : Prop :=
-  ∀ e, x.1 = .error e →
-    e.isPlain = true ∨ (e = .panic "makeslice" ∧ NegLenAt r x.2) ∨
-    (e = .panic "index" ∧ (Overlong A r x.2 ∨ ((n : Int) < len ∧ r.Le x.2))) ∨ e = illTyped
-
-theorem ClsArr.of_cls {α : Type} {A : Nat → Prop} {n : Nat} {len : Int} {r : Reader} {x : Res α}
-    (h : Cls A r x) : ClsArr A n len r x := by
-  intro e he
-  rcases h e he with h1 | h1 | ⟨h1, h2⟩ | h1
-  · exact .inl h1
-  · exact .inr (.inl h1)
-  · exact .inr (.inr (.inl ⟨h1, .inl h2⟩))
-  · exact .inr (.inr (.inr h1))
-
-theorem ClsArr.mono {α : Type} {A : Nat → Prop} {n : Nat} {len : Int} {r0 r : Reader} {x : Res α}
-    (h : r0.Le r) (hc : ClsArr A n len r x) : ClsArr A n len r0 x := by
-  intro e he
-  rcases hc e he with h1 | ⟨h1, h2⟩ | ⟨h1, h2⟩ | h1
-  · exact .inl h1
-  · exact .inr (.inl ⟨h1, h2.mono h⟩)
-  · refine .inr (.inr (.inl ⟨h1, ?_⟩))
-    rcases h2 with h2 | ⟨h2, h3⟩
-    · exact .inl (h2.mono (fun _ a => a) h (Reader.Le.refl _))
-    · exact .inr ⟨h2, h.trans h3⟩
-  · exact .inr (.inr (.inr h1))
-
 /-- **Sufficient fuel and exact outcome classification for the generated decoders.**
     With `W = env.width` (largest member count), `(W+3)·remaining + 1` units of fuel suffice for
     `decVar` (`+2` for the loops, `+ #members + 2` for a member sequence): the result is then a
-    value, a plain Go error, a "makeslice" panic directly after a negative length prefix, an
-    "index" panic after a length prefix exceeding a declared array size, or the model's
-    ill-typed-target marker — in particular never `.fuel`. -/
+    value, a plain Go error, or the model's ill-typed-target marker — in particular never `.fuel`
+    and never a Go run-time panic (lengths and element counts are validated before use; the array
+    loop is only entered with `len ≤ n`). -/
 theorem dec_cls (env : Env) : ∀ f : Nat,
     (∀ tag req ty old (r : Reader), (env.width + 3) * r.remaining + 1 ≤ f →
-      Cls (HasArr env ty) r (decVar env f tag req ty old r)) ∧
+      Cls (decVar env f tag req ty old r)) ∧
     (∀ e n acc (r : Reader), (env.width + 3) * r.remaining + 2 ≤ f →
-      Cls (HasArr env e) r (decElems env f e n acc r)) ∧
-    (∀ e n i len cur (r : Reader), (env.width + 3) * r.remaining + 2 ≤ f →
-      ClsArr (HasArr env e) n len r (decArr env f e n i len cur r)) ∧
+      Cls (decElems env f e n acc r)) ∧
+    (∀ e (n : Nat) i len cur (r : Reader), (env.width + 3) * r.remaining + 2 ≤ f → len ≤ (n : Int) →
+      Cls (decArr env f e n i len cur r)) ∧
     (∀ k v len acc (r : Reader), (env.width + 3) * r.remaining + 2 ≤ f →
-      Cls (fun n => HasArr env k n ∨ HasArr env v n) r (decPairs env f k v len acc r)) ∧
+      Cls (decPairs env f k v len acc r)) ∧
     (∀ fs olds (r : Reader), (env.width + 3) * r.remaining + fs.length + 2 ≤ f →
-      Cls (fun n => ∃ fld, fld ∈ fs ∧ HasArr env fld.ty n) r (decMembers env f fs olds r)) := by
+      Cls (decMembers env f fs olds r)) := by
   intro f
   induction f with
   | zero => refine ⟨?_, ?_, ?_, ?_, ?_⟩ <;> intros <;> omega
@@ -273,13 +217,17 @@ theorem dec_cls (env : Env) : ∀ f : Nat,
                     have hl2 := readLen_ok hd
                     have hlt2 := hl2.remaining
                     simp only
-                    split
-                    · rename_i hneg
-                      intro e' he; simp only [Except.error.injEq] at he; subst he
-                      exact .inr (.inl ⟨rfl, r1, len, p1, hd, hneg⟩)
-                    · have s1 := mul_step (env.width + 3) _ _ hlt
-                      have s2 := mul_step (env.width + 3) _ _ hlt2
-                      exact (ihE e _ _ r2 (by omega)).mono (fun n h => HasArr.vec h) (p1.trans hl2.le)
+                    have hp3 := checkLength_plain len r2
+                    cases hc3 : checkLength len r2 with
+                    | mk res3 r3 =>
+                      rw [hc3] at hp3
+                      cases res3 with
+                      | error er => exact Cls.of_plain (by simpa using hp3)
+                      | ok u =>
+                        obtain ⟨rfl, _, _⟩ := checkLength_ok hc3
+                        have s1 := mul_step (env.width + 3) _ _ hlt
+                        have s2 := mul_step (env.width + 3) _ _ hlt2
+                        exact ihE e _ _ r3 (by omega)
               · split
                 · split
                   · have hp2 := skipTo_plain tyBYTE 0 true r1
@@ -338,16 +286,10 @@ theorem dec_cls (env : Env) : ∀ f : Nat,
                     simp only
                     have s1 := mul_step (env.width + 3) _ _ hlt
                     have s2 := mul_step (env.width + 3) _ _ hlt2
-                    have hA := ihA e n 0 len (Total.oldList old) r2 (by omega)
-                    intro e' he
-                    rcases hA e' he with h1 | ⟨h1, h2⟩ | ⟨h1, h2⟩ | h1
-                    · exact .inl h1
-                    · exact .inr (.inl ⟨h1, h2.mono (p1.trans hl2.le)⟩)
-                    · refine .inr (.inr (.inl ⟨h1, ?_⟩))
-                      rcases h2 with h2 | ⟨h2, h3⟩
-                      · exact h2.mono (fun n h => HasArr.arr h) (p1.trans hl2.le) (Reader.Le.refl _)
-                      · exact ⟨n, HasArr.here n e, r1, r2, len, p1, hd, h3, h2⟩
-                    · exact .inr (.inr (.inr h1))
+                    split
+                    · exact Cls.of_plainErr rfl
+                    · rename_i hgt
+                      exact ihA e n 0 len (Total.oldList old) r2 (by omega) (by omega)
               · exact Cls.of_plainErr rfl
       | map k v =>
         rw [Total.decVar_map]
@@ -378,8 +320,15 @@ theorem dec_cls (env : Env) : ∀ f : Nat,
                   simp only
                   have s1 := mul_step (env.width + 3) _ _ hlt
                   have s2 := mul_step (env.width + 3) _ _ hlt2
-                  exact (ihP k v len [] r2 (by omega)).mono
-                    (fun n h => h.elim HasArr.mapK HasArr.mapV) (p1.trans hl2.le)
+                  have hp3 := checkLength_plain len r2
+                  cases hc3 : checkLength len r2 with
+                  | mk res3 r3 =>
+                    rw [hc3] at hp3
+                    cases res3 with
+                    | error er => exact Cls.of_plain (by simpa using hp3)
+                    | ok u =>
+                      obtain ⟨rfl, _, _⟩ := checkLength_ok hc3
+                      exact ihP k v len [] r3 (by omega)
       | struct name =>
         rw [Total.decVar_struct]
         split
@@ -413,7 +362,7 @@ theorem dec_cls (env : Env) : ∀ f : Nat,
                   cases res2 with
                   | error er =>
                     simp only
-                    exact (hM.mono (fun n h => h.elim fun fld hh => HasArr.struct hfs hh.1 hh.2) p1).err_cast
+                    exact hM.err_cast
                   | ok vs =>
                     simp only
                     have hp3 := skipToStructEnd_fuel_plain r2
@@ -424,13 +373,13 @@ theorem dec_cls (env : Env) : ∀ f : Nat,
                       | error er => exact Cls.of_plain (by simpa using hp3)
                       | ok u => exact Cls.of_ok
         · intro e' he; simp only [Except.error.injEq] at he; subst he
-          exact .inr (.inr (.inr rfl))
+          exact .inr rfl
       | bool | i8 | u8 | i16 | u16 | i32 | u32 | i64 | f32 | f64 | str | enum =>
         rw [Total.decVar_atom _ _ _ _ _ _ _ rfl]
         intro e' he
         rcases (readScalar_spec _ old tag req r).2.2 e' he with h | h
         · exact .inl h
-        · exact .inr (.inr (.inr h))
+        · exact .inr h
     · intro e n acc r hf
       rw [Total.decElems_succ]
       cases n with
@@ -448,31 +397,28 @@ theorem dec_cls (env : Env) : ∀ f : Nat,
             simp only
             have hlt := hS.2 rfl v rfl
             have s1 := mul_step (env.width + 3) _ _ hlt
-            exact (ihE e n' (v :: acc) r1 (by simp only at s1; omega)).mono (fun _ h => h) hS.1
-    · intro e n i len cur r hf
+            exact ihE e n' (v :: acc) r1 (by simp only at s1; omega)
+    · intro e n i len cur r hf hlen'
       rw [Total.decArr_succ]
       split
       · intro e' he; simp at he
       · rename_i hlen
         split
         · rename_i hin
-          intro e' he
-          rcases arrOverflow_cls e r e' he with h | h | h
-          · exact .inl h
-          · exact .inr (.inl h)
-          · exact .inr (.inr (.inl ⟨h, .inr ⟨by omega, arrOverflow_le e r⟩⟩))
+          -- unreachable: `i < len ≤ n`
+          omega
         · have hV := ihV 0 true e (cur.getD i (zeroOf env e)) r (by omega)
           have hS := (dec_pos env f).1 0 true e (cur.getD i (zeroOf env e)) r
           cases hb : decVar env f 0 true e (cur.getD i (zeroOf env e)) r with
           | mk res r1 =>
             rw [hb] at hV hS
             cases res with
-            | error er => exact ClsArr.of_cls hV
+            | error er => exact hV
             | ok v =>
               simp only
               have hlt := hS.2 rfl v rfl
               have s1 := mul_step (env.width + 3) _ _ hlt
-              exact (ihA e n (i+1) len (listSet cur i v) r1 (by simp only at s1; omega)).mono hS.1
+              exact ihA e n (i+1) len (listSet cur i v) r1 (by simp only at s1; omega) hlen'
     · intro k v len acc r hf
       rw [Total.decPairs_succ]
       split
@@ -483,7 +429,7 @@ theorem dec_cls (env : Env) : ∀ f : Nat,
         | mk res r1 =>
           rw [hb] at hV hS
           cases res with
-          | error er => exact hV.mono (fun _ h => .inl h) (Reader.Le.refl _)
+          | error er => exact hV
           | ok a =>
             simp only
             have hlt := hS.2 rfl a rfl
@@ -494,13 +440,12 @@ theorem dec_cls (env : Env) : ∀ f : Nat,
             | mk res2 r2 =>
               rw [hc] at hV2 hS2
               cases res2 with
-              | error er => exact hV2.mono (fun _ h => .inr h) hS.1
+              | error er => exact hV2
               | ok b =>
                 simp only
                 have hlt2 := hS2.2 rfl b rfl
                 have s2 := mul_step (env.width + 3) _ _ hlt2
-                exact (ihP k v (len - 1) _ r2 (by simp only at s1 s2; omega)).mono (fun _ h => h)
-                  (hS.1.trans hS2.1)
+                exact ihP k v (len - 1) _ r2 (by simp only at s1 s2; omega)
     · intro fs olds r hf
       rw [Total.decMembers_succ]
       split
@@ -514,7 +459,7 @@ theorem dec_cls (env : Env) : ∀ f : Nat,
           cases res with
           | error er =>
             simp only
-            exact (hV.mono (fun n h => ⟨fld, List.mem_cons_self, h⟩) (Reader.Le.refl _)).err_cast
+            exact hV.err_cast
           | ok v =>
             simp only
             have hle := hS.1.remaining
@@ -525,7 +470,7 @@ theorem dec_cls (env : Env) : ∀ f : Nat,
               rw [hc] at hM
               cases res2 with
               | error er =>
-                exact hM.mono (fun n h => h.elim fun g hh => ⟨g, List.mem_cons_of_mem _ hh.1, hh.2⟩) hS.1
+                exact hM
               | ok vs => exact Cls.of_ok
       · exact Cls.of_ok
 
@@ -552,7 +497,7 @@ theorem decFuel_ge (env : Env) (r : Reader) {name : String} {fs : List Field}
 
 /-- outcome classification of `ReadFrom` for every struct, every target, every input -/
 theorem decStruct_cls (env : Env) (name : String) (old : Val) (r : Reader) :
-    Cls (HasArr env (.struct name)) r (decStruct env name old r) := by
+    Cls (decStruct env name old r) := by
   rw [decStruct_eq]
   split
   · rename_i _ _ fs ovs hfs
@@ -564,10 +509,9 @@ theorem decStruct_cls (env : Env) (name : String) (old : Val) (r : Reader) :
       cases res2 with
       | error er =>
         simp only
-        exact (hM.mono (fun n h => h.elim fun fld hh => HasArr.struct hfs hh.1 hh.2)
-          (Reader.Le.refl _)).err_cast
+        exact hM.err_cast
       | ok vs => exact Cls.of_ok
   · intro e' he; simp only [Except.error.injEq] at he; subst he
-    exact .inr (.inr (.inr rfl))
+    exact .inr rfl
 
 end Tars
